@@ -1672,6 +1672,8 @@ class Interp:
             rec(0)
             if isinstance(e, ast.DictComp):
                 return dict(out)
+            if isinstance(e, ast.GeneratorExp):
+                return iter(out)   # evaluated eagerly, consumed as an iterator (next(gen, default), for, join ...)
             return set(out) if isinstance(e, ast.SetComp) else out
         if isinstance(e, ast.NamedExpr):
             v = self.ev(e.value, scopes)
